@@ -35,7 +35,12 @@ POLYS = {
         [[1.2, 10.0], [3.7, 10.0], [3.7, 60.0], [1.2, 60.0]]],   # ev 1..5
     1: [[[1.7, 20.0], [5.0, 20.0], [5.0, 80.0], [1.7, 80.0]],    # ev 2..7
         [[1.7, 20.0], [5.0, 20.0], [3.2, 50.0], [5.0, 80.0], [1.7, 80.0]]],
+    # on axes that hold NaN / inf values
+    2: [[[15.0, 0.015], [55.0, 0.015], [55.0, 0.09], [15.0, 0.09]],
+        [[5.0, 0.005], [45.0, 0.005], [45.0, 0.06], [5.0, 0.06]]],
 }
+POLY_AXES = {0: ("aspect", "bright_avg"), 1: ("aspect", "bright_avg"),
+             2: ("area_um", "deform")}
 
 
 def crossing_inside(px, py, poly):
@@ -80,7 +85,7 @@ class FilterDriver(explore.Driver):
         st.pfs = {}
         st.pvar = {}
         for i in self.polys:
-            st.pfs[i] = PolygonFilter(axes=("aspect", "bright_avg"),
+            st.pfs[i] = PolygonFilter(axes=POLY_AXES[i],
                                       points=POLYS[i][0], unique_id=100 + i)
             st.pvar[i] = 0
         st.ds = self._new_ds()
@@ -191,8 +196,8 @@ class FilterDriver(explore.Driver):
         for uid in cfg["polygon filters"]:
             i = uid - 100
             pts = POLYS[i][st.pvar[i]]
-            ins = np.array([crossing_inside(DATA["aspect"][e],
-                                            DATA["bright_avg"][e], pts)
+            ax, ay = POLY_AXES[i]
+            ins = np.array([crossing_inside(DATA[ax][e], DATA[ay][e], pts)
                             for e in range(N)])
             if st.pfs[i].inverted:
                 ins = ~ins
@@ -290,10 +295,15 @@ def drivers(ctx):
     if ctx.quick:
         return [("full", FilterDriver(), 3, 1),
                 ("noapply", FilterDriver(feats=("deform",), polys=(0,)),
-                 4, 2)]
+                 4, 2),
+                ("nan-polygon", FilterDriver(feats=("deform",), polys=(2,),
+                                             with_apply_variants=False),
+                 4, 1)]
     return [("full", FilterDriver(), 4, 2),
             ("small-deep", FilterDriver(feats=("deform",), polys=(0,)),
-             6, 3)]
+             6, 3),
+            ("nan-polygon", FilterDriver(feats=("deform", "area_um"),
+                                         polys=(2,)), 4, 2)]
 
 
 def run(ctx):
